@@ -633,8 +633,12 @@ impl<'a, S: Fcntl + Sigmask> Deref for TemporaryNonBlockingGuard<'a, S> {
 /// signals that have been caught. This is a simple wrapper around
 /// `Vec<crate::signal::Number>` that is accessible through `Deref` and
 /// `DerefMut`.
+///
+/// The list is shared among all tasks that were waiting for signals when the
+/// signals were caught. The second field tells whether one of them has
+/// already [claimed](Self::claim) the list.
 #[derive(Clone, Debug, Eq, PartialEq)]
-pub struct SignalList(OnceCell<Vec<crate::signal::Number>>);
+pub struct SignalList(OnceCell<Vec<crate::signal::Number>>, Cell<bool>);
 
 impl Deref for SignalList {
     type Target = Vec<crate::signal::Number>;
@@ -655,7 +659,18 @@ impl DerefMut for SignalList {
 impl SignalList {
     #[must_use]
     fn new() -> Self {
-        Self(OnceCell::new())
+        Self(OnceCell::new(), Cell::new(false))
+    }
+
+    /// Claims the responsibility for passing the signals to the trap set.
+    ///
+    /// Every task that receives this (shared) list may want to pass the
+    /// signals to [`TrapSet::catch_signal`](crate::trap::TrapSet::catch_signal),
+    /// but that must happen only once for each list. Otherwise, a trap that has
+    /// already been run for these signals would be run again. This function
+    /// returns `true` to the first caller and `false` to all others.
+    pub fn claim(&self) -> bool {
+        !self.1.replace(true)
     }
 
     /// Consumes the `SignalList` and returns the inner list of signals.
